@@ -225,3 +225,34 @@ func VH_C15_reject() {
 	}
 	vReach("end")
 }
+
+// a ring with one vertex displaced by more than the tolerance is not similar,
+// whichever vertex it is (the closing one included) and whether or not the
+// rings repeat their first vertex
+func VH_C15_reject_ring() {
+	w, s := vBound(6, 7), 2
+	t := vTol(3, s)
+	n := 3 + vChoose(vBound(1, 2))
+	r := vGridPath(n, n, w, s)
+	for i := 0; i < n; i++ {
+		for j := 0; j < i; j++ {
+			vAssume(vFar(r[i], r[j], t))
+		}
+	}
+	g := append(Path{}, r...)
+	if vChoose(2) == 1 {
+		g = append(g, r[0])
+	}
+	h := append(Path{}, g...)
+	i := vChoose(len(h))
+	d := vGrid(w, s)
+	vAssume(vOr(d > 8*t, -d > 8*t))
+	h[i].X = g[i].X + d
+	// the displaced vertex is far from every vertex of g
+	for _, q := range g {
+		vAssume(vFar(h[i], q, t))
+	}
+	vAssert(!Polygon{g}.Similar(Polygon{h}, t), "ring-with-displaced-vertex-not-similar")
+	vAssert(!Polygon{h}.Similar(Polygon{g}, t), "ring-with-displaced-vertex-not-similar-rev")
+	vReach("end")
+}
